@@ -70,7 +70,20 @@ func init() {
 			}
 			return ConstBV(uint64(n), 64)
 		}
-		e.intr["fmt.Sprintf"] = func(e *Engine, st *State, cc *ssa.CallCommon, a []Value) Value {
+		prevSprintf := e.intr["fmt.Sprintf"] // the coarser model of intr_errors.go (opaque result) is the fallback
+		prevErrorf := e.intr["fmt.Errorf"]
+		e.intr["fmt.Sprintf"] = func(e *Engine, st *State, cc *ssa.CallCommon, a []Value) (res Value) {
+			if prevSprintf != nil {
+				defer func() {
+					if r := recover(); r != nil {
+						if _, ok := r.(Unsupported); ok {
+							res = prevSprintf(e, st, cc, a)
+							return
+						}
+						panic(r)
+					}
+				}()
+			}
 			format, ok := a[0].(StringVal).Concrete()
 			if !ok {
 				unsupported("fmt.Sprintf with a symbolic format")
@@ -109,6 +122,9 @@ func init() {
 		}
 		e.intr["fmt.Errorf"] = func(e *Engine, st *State, cc *ssa.CallCommon, a []Value) Value {
 			format, _ := a[0].(StringVal).Concrete()
+			if prevErrorf != nil && strings.Contains(format, "%w") {
+				return prevErrorf(e, st, cc, a) // error chains (errors.Is/As) need the wrapping model
+			}
 			// one value per format text, so that paths that fail the same way can merge
 			return IfaceVal{Type: types.Universe.Lookup("error").Type(), Val: OpaqueVal{Tag: "error", ID: -1000 - e.intern(format), Data: ConcreteString(format)}}
 		}
